@@ -6,6 +6,7 @@ import tree_sitter_nix as ts_nix
 from tree_sitter import Language, Node, Parser
 
 from nix_manipulator.expressions.path import source_path_context
+from nix_manipulator.expressions.raw import RawExpression
 from nix_manipulator.expressions.source_code import NixSourceCode
 
 
@@ -57,6 +58,11 @@ def parse(
     """Parse Nix source code and return the root of its AST."""
     node = parse_to_ast(source_code=source_code)
     source = NixSourceCode.from_cst(node)
+    if source.contains_error:
+        # The root node starts at the first token, so its text lacks leading whitespace:
+        # pass the whole input through untouched.
+        text = source_code.decode("utf-8") if isinstance(source_code, bytes) else source_code
+        source.expressions = [RawExpression(text=text)]
     if source_path:
         source.source_path = Path(source_path)
     return source
